@@ -18,6 +18,7 @@ import re
 
 import yaml
 
+from ..model import inline_temporaries
 from ..model import Program, walk_own, is_self_attr, dotted, repo_root
 from ..options import Schemas
 from ..report import AnalysisError
@@ -130,19 +131,24 @@ def written_variables(prog):
         raise AnalysisError("writer methods not found")
     names = {}
 
+    from ..stores import effects, Marker
+
     def suffixes(method, param_idx=1):
         f = mm.funcs.get("BoutMesh." + method)
         if f is None:
             raise AnalysisError("BoutMesh.%s not found" % method)
         pname = f.node.args.args[param_idx].arg
         out = []
-        for c in ast.walk(f.node):
-            if isinstance(c, ast.Call) and isinstance(c.func, ast.Attribute) and c.func.attr == "write" and c.args:
+        for e in effects(f.node, consts=True):
+            c = e.value
+            if e.kind == "call" and isinstance(c.func, ast.Attribute) and c.func.attr == "write" and c.args:
                 a = c.args[0]
                 if isinstance(a, ast.Name) and a.id == pname:
                     out.append("")
                 elif isinstance(a, ast.BinOp) and isinstance(a.left, ast.Name) and a.left.id == pname and isinstance(a.right, ast.Constant):
                     out.append(a.right.value)
+                else:
+                    raise AnalysisError("BoutMesh.%s writes under a name that is not `%s` + literal (unmodelled): %s" % (method, pname, mm.text(a)))
         return out
 
     suf = {m: suffixes(m) for m in ("writeArray", "writeCorners", "writeArrayXDirection")}
@@ -152,35 +158,34 @@ def written_variables(prog):
         for c in ast.walk(g):
             if isinstance(c, ast.Call) and isinstance(c.func, ast.Attribute) and c.func.attr == "append" and isinstance(c.func.value, ast.Attribute) and c.func.value.attr in lists:
                 collectors[g.name] = c.func.value.attr
-    for c in ast.walk(geo.node):
-        if isinstance(c, ast.Call) and isinstance(c.func, ast.Name) and c.func.id in collectors and c.args and isinstance(c.args[0], ast.Constant):
-            lists[collectors[c.func.id]].append((c.args[0].value, c.lineno))
-    for n in ast.walk(w.node):
-        if isinstance(n, ast.Call) and isinstance(n.func, ast.Attribute):
-            if n.func.attr == "write" and n.args and isinstance(n.args[0], ast.Constant) and dotted(n.func.value) == "f":
-                names[n.args[0].value] = "f.write at line %d" % n.lineno
-            elif dotted(n.func) in ("self.writeArray", "self.writeCorners", "self.writeArrayXDirection") and n.args:
-                meth = n.func.attr
-                a = n.args[0]
-                if isinstance(a, ast.Constant):
+    for e in effects(geo.node, consts=True):
+        c = e.value
+        if e.kind == "call" and isinstance(c.func, ast.Name) and c.func.id in collectors and c.args and isinstance(c.args[0], ast.Constant):
+            lists[collectors[c.func.id]].append((c.args[0].value, e.node.lineno))
+    for e in effects(w.node, consts=True):
+        n = e.value
+        if e.kind != "call" or not isinstance(n.func, ast.Attribute):
+            continue
+        ln = e.node.lineno
+        if n.func.attr == "write" and n.args and isinstance(n.args[0], ast.Constant) and dotted(n.func.value) == "f":
+            names[n.args[0].value] = "f.write at line %d" % ln
+        elif dotted(n.func) in ("self.writeArray", "self.writeCorners", "self.writeArrayXDirection") and n.args:
+            meth = n.func.attr
+            a = n.args[0]
+            if isinstance(a, ast.Constant):
+                for s in suf[meth]:
+                    names[a.value + s] = "%s at line %d" % (meth, ln)
+            elif isinstance(a, ast.Name):
+                loop = next((c for c in reversed(e.conds) if isinstance(c, Marker) and isinstance(c.target, ast.Name) and c.target.id == a.id), None)
+                if loop is None:
+                    raise AnalysisError("writer call with non-constant name outside a loop at line %d" % ln)
+                if isinstance(loop.iter, ast.Attribute) and loop.iter.attr in lists:
+                    base = lists[loop.iter.attr]
+                else:
+                    raise AnalysisError("writer loop over %s not understood" % mm.text(loop.iter))
+                for nm, l2 in base:
                     for s in suf[meth]:
-                        names[a.value + s] = "%s at line %d" % (meth, n.lineno)
-                elif isinstance(a, ast.Name):
-                    loop = None
-                    for l in ast.walk(w.node):
-                        if isinstance(l, ast.For) and isinstance(l.target, ast.Name) and l.target.id == a.id and any(x is n for x in ast.walk(l)):
-                            loop = l
-                    if loop is None:
-                        raise AnalysisError("writer call with non-constant name outside a loop at line %d" % n.lineno)
-                    if isinstance(loop.iter, ast.List):
-                        base = [(e.value, loop.lineno) for e in loop.iter.elts if isinstance(e, ast.Constant)]
-                    elif isinstance(loop.iter, ast.Attribute) and loop.iter.attr in lists:
-                        base = lists[loop.iter.attr]
-                    else:
-                        raise AnalysisError("writer loop over %s not understood" % mm.text(loop.iter))
-                    for nm, ln in base:
-                        for s in suf[meth]:
-                            names[nm + s] = "%s of %s (line %d)" % (meth, nm, ln)
+                        names[nm + s] = "%s of %s (line %d)" % (meth, nm, l2)
     return names, lists
 
 
@@ -210,6 +215,14 @@ def _raising(node):
     return any(isinstance(s, ast.Raise) for s in node)
 
 
+_EFFECTS_CACHE = {}
+
+
+def _tok_in(tok, t):
+    """a token, or a tuple of alternative spellings of it, occurs in the text"""
+    return any(key_in(x, t) for x in tok) if isinstance(tok, tuple) else key_in(tok, t)
+
+
 def _find_guards(mod, f, tokens):
     """`if <test>: raise`; or `if <X>: ... else: raise` read as the guard `not <X>`; or
     `if <X>: return` followed by an unconditional raise in the same block (guard `not <X>`).
@@ -217,25 +230,52 @@ def _find_guards(mod, f, tokens):
     from ..model import inline_temporaries
     out = []
 
+    class _Diff(ast.NodeTransformer):
+        # numpy.diff(E) along the only axis is E[1:] - E[:-1]
+        def visit_Call(self, n):
+            self.generic_visit(n)
+            if mod.code(n.func) == "numpy.diff" and len(n.args) == 1 and not n.keywords:
+                e = n.args[0]
+                sl = lambda lo, hi: ast.Subscript(value=e, slice=ast.Slice(lower=lo, upper=hi, step=None), ctx=ast.Load())
+                return ast.BinOp(left=sl(ast.Constant(value=1), None), op=ast.Sub(), right=sl(None, ast.UnaryOp(op=ast.USub(), operand=ast.Constant(value=1))))
+            return n
+
     def text(test):
-        # the test as written, then the same with once-assigned temporaries seen through
-        return mod.code(test) + " || " + mod.code(inline_temporaries(f.node, test))
+        # the test as written; with once-assigned temporaries seen through; and with temporaries
+        # bound to calls seen through as well and numpy.diff spelled as a difference of slices
+        import copy
+        deep = _Diff().visit(copy.deepcopy(inline_temporaries(f.node, test, inline_calls=True)))
+        return mod.code(test) + " || " + mod.code(inline_temporaries(f.node, test)) + " || " + mod.code(ast.fix_missing_locations(deep))
 
     for n in ast.walk(f.node):
         if isinstance(n, ast.If) and _raising(n.body):
             t = text(n.test)
-            if all(key_in(tok, t) for tok in tokens):
+            if all(_tok_in(tok, t) for tok in tokens):
                 out.append(n)
         elif isinstance(n, ast.If) and n.orelse and _raising(n.orelse) and not (len(n.orelse) == 1 and isinstance(n.orelse[0], ast.If)):
             t = text(n.test)
-            if any(all(key_in(tok, v) for tok in tokens) for v in _negations(t)):
+            if any(all(_tok_in(tok, v) for tok in tokens) for v in _negations(t)):
                 out.append(n)
+    # the same through the control-flow-normalised view (guards written as a loop over a
+    # literal table, guard clauses, temporaries): a raise whose innermost condition has the tokens
+    from ..stores import effects
+    import copy
+    for calls in (False, True):
+        ck = (id(f.node), calls)
+        if ck not in _EFFECTS_CACHE:
+            _EFFECTS_CACHE[ck] = effects(f.node, calls=calls)
+        for e in _EFFECTS_CACHE[ck]:
+            if e.kind == "raise" and e.conds and not isinstance(e.conds[-1], str) and e.ifs[-1] is not None:
+                c = e.conds[-1]
+                t = mod.code(c) + " || " + mod.code(ast.fix_missing_locations(_Diff().visit(copy.deepcopy(c))))
+                if all(_tok_in(tok, t) for tok in tokens) and e.ifs[-1] not in out:
+                    out.append(e.ifs[-1])
     for b in _blocks_of(f.node):
         for i, n in enumerate(b):
             if isinstance(n, ast.If) and not n.orelse and len(n.body) == 1 and isinstance(n.body[0], ast.Return) and n.body[0].value is None \
                     and any(isinstance(x, ast.Raise) for x in b[i + 1:]):
                 t = text(n.test)
-                if any(all(key_in(tok, v) for tok in tokens) for v in _negations(t)) and n not in out:
+                if any(all(_tok_in(tok, v) for tok in tokens) for v in _negations(t)) and n not in out:
                     out.append(n)
     return out
 
@@ -296,7 +336,8 @@ GUARDS = [
     (MESH, "MeshRegion.calcMetric", "Jacobian check at ylow", ["check.ylow"], "check =", True),
     (MESH, "MeshRegion.calcMetric", "Jacobian check at xlow", ["check.xlow"], None, True),
     (MESH, "MeshRegion.calcMetric", "Jacobian check at corners", ["check.corners"], None, True),
-    (EQ, "PsiContour.get_distance", "contour distance strictly increasing", ["d[1:]-d[:-1]>0.0"], "d = numpy.array(self._distance)", True),
+    (EQ, "PsiContour.get_distance", "contour distance strictly increasing",
+     [("d[1:]-d[:-1]>0.0", "numpy.array(self._distance)[1:]-numpy.array(self._distance)[:-1]>0.0")], "self._distance =", True),
     (EQ, "Equilibrium.make1dGrid", "1-D grid strictly monotonic", ["diffs>0.0", "diffs<0.0"], "diffs =", True),
     (EQ, "Equilibrium.makeConnection", "upper edge not already connected", ['["upper"]isnotNone'], None, False),
     (EQ, "Equilibrium.makeConnection", "lower edge not already connected", ['["lower"]isnotNone'], None, False),
@@ -411,7 +452,7 @@ def _len_chains(f):
             t = cur.test
             if not (isinstance(t, ast.Compare) and len(t.ops) == 1 and isinstance(t.ops[0], ast.Eq) and isinstance(t.comparators[0], ast.Constant) and isinstance(t.comparators[0].value, int)):
                 break
-            sj = mod.code(t.left)
+            sj = mod.code(inline_temporaries(f.node, t.left, inline_calls=True))
             if subj is None:
                 subj = sj
             elif sj != subj:
